@@ -1,3 +1,25 @@
+/-
+C11 — every internal link leads to a page and anchor that exist.
+
+Over the `Output` model (lean/PdModel/Output.lean): `Documentable.url/page_object/isVisible`,
+`linker.taglink`, `TemplateWriter._writeDocsFor/writeSummaryPages`, and every producer of links /
+listing entries with the guard the code has.  `WF s` is what C02 establishes about a real registry
+(parents before children, `contents` and `parent` agree, qualified names pairwise different); the
+driver evaluates `wf` on every table it is sent.
+
+* `url_resolves_iff`      `url o` leads to a written file (+ anchor) ⇔ `o` is visible and reached through
+                          `contents` from a root (so: not a superseded duplicate `'x 0'`, nor inside one —
+                          `superseded_not_reachable`, `inside_superseded_not_reachable`)
+* `own_page_exists`, `member_anchor_exists`   the second sentence of the property
+* `links_resolve`         every link of the rows whose guard implies "visible and reached" resolves
+* `shorten_resolves`      same-page shortening is harmless on the page it was computed for
+* The full statement "every emitted link resolves" is FALSE of the current code: `links_resolve_partial`
+  states it for all rows under explicit hypotheses; `links_resolve_counterexample_superseded` (DESIGN §8-4),
+  `links_resolve_counterexample_hidden` (§8-11), `links_resolve_counterexample_context` (inherited
+  docstrings), `inhierarchy_counterexample` ("View In Hierarchy") are the witnesses.
+* `origin`                one pass over the producer table: what each row's code path guarantees
+                          (used by C12 as well).
+-/
 import PdModel.Output
 namespace Output
 
@@ -73,7 +95,7 @@ theorem visible_lt {s : Sys} {i : Nat} (h : visible s i = true) : i < s.n := by
 
 structure WF (s : Sys) : Prop where
   parent_lt : ∀ i p, i < s.n → (s.ob i).parent = some p → p < i
-  parent_page : ∀ i p, i < s.n → (s.ob i).parent = some p → (s.ob i).kind.ownPage = true ∨ (s.ob p).kind.ownPage = true
+  parent_page : ∀ i p, i < s.n → (s.ob i).parent = some p → (s.ob p).kind.ownPage = true
   orphan_module : ∀ i, i < s.n → (s.ob i).parent = none → (s.ob i).kind.isModule = true
   contents_lt : ∀ i c, c ∈ (s.ob i).contents → c < s.n
   contents_parent : ∀ i c, c ∈ (s.ob i).contents → (s.ob c).parent = some i
@@ -82,10 +104,11 @@ structure WF (s : Sys) : Prop where
   roots_parent : ∀ r, r ∈ s.roots → (s.ob r).parent = none
   names : ∀ i j, i < s.n → j < s.n → fullName s i = fullName s j → i = j
   spellings : ∀ i j, i < s.n → j < s.n → (s.ob j).parent ≠ none → (s.ob i).name ≠ fullName s j
+  modules : ∀ i, i < s.n → (s.ob i).modul = moduleByChain s i
 
 theorem wf_iff (s : Sys) (h : wf s = true) : WF s := by
   simp only [wf, Bool.and_eq_true, List.all_eq_true, List.mem_range, decide_eq_true_eq, beq_iff_eq] at h
-  obtain ⟨⟨⟨⟨hobj, hroots⟩, _hall⟩, hnames⟩, hsp⟩ := h
+  obtain ⟨⟨⟨⟨⟨hobj, hmod⟩, hroots⟩, _hall⟩, hnames⟩, hsp⟩ := h
   have hobj' : ∀ i, i < s.n → wfObj s i = true := hobj
   have hc : ∀ i c, c ∈ (s.ob i).contents → c < s.n ∧ (s.ob c).parent = some i := by
     intro i c hc
@@ -94,14 +117,14 @@ theorem wf_iff (s : Sys) (h : wf s = true) : WF s := by
     simp only [wfObj, Bool.and_eq_true, List.all_eq_true, decide_eq_true_eq, beq_iff_eq] at this
     exact this.1.2 c hc
   refine ⟨?_, ?_, ?_, fun i c h => (hc i c h).1, fun i c h => (hc i c h).2, ?_, fun r hr => (hroots r hr).1,
-    fun r hr => (hroots r hr).2, ?_, ?_⟩
+    fun r hr => (hroots r hr).2, ?_, ?_, ?_⟩
   · intro i p hi hp
     have := hobj' i hi
     simp only [wfObj, hp, Bool.and_eq_true, decide_eq_true_eq] at this
     exact this.1.1.1
   · intro i p hi hp
     have := hobj' i hi
-    simp only [wfObj, hp, Bool.and_eq_true, Bool.or_eq_true] at this
+    simp only [wfObj, hp, Bool.and_eq_true] at this
     exact this.1.1.2
   · intro i hi hp
     have := hobj' i hi
@@ -126,6 +149,10 @@ theorem wf_iff (s : Sys) (h : wf s = true) : WF s := by
     rcases this i hi j hj with h | h
     · exact absurd h hp
     · exact h
+  · intro i hi
+    have := hmod
+    simp only [modulesCoherent, List.all_eq_true, List.mem_range, beq_iff_eq] at this
+    exact this i hi
 
 /-! ### `_writeDocsFor` visits exactly the visible objects reached through `contents` -/
 
@@ -247,29 +274,38 @@ theorem url_member {s : Sys} (w : WF s) {i p : Nat} (hi : i < s.n) (h : (s.ob i)
 
 theorem mem_written_iff (s : Sys) (f : File) :
     f ∈ written s ↔ f ∈ summaryFiles s ∨ (∃ p, p ∈ pages s ∧ pageFile s p = f) ∨ f ∈ aliasFiles s := by
-  simp [written, pageFiles, or_assoc]
+  simp [written, pageFiles]
+
+theorem mem_summaryFiles_cases {s : Sys} {f : File} (h : f ∈ summaryFiles s) :
+    (∃ x, f = .summary x) ∨ (f = .index ∧ 1 < (rootNames s).length) := by
+  unfold summaryFiles at h
+  by_cases hl : (rootNames s).length > 1
+  · simp only [hl, if_true, List.mem_append, List.mem_cons, List.not_mem_nil, or_false] at h
+    rcases h with ((h | h | h | h) | h) | h
+    · exact .inl ⟨_, h⟩
+    · exact .inl ⟨_, h⟩
+    · exact .inl ⟨_, h⟩
+    · exact .inl ⟨_, h⟩
+    · exact .inr ⟨h, hl⟩
+    · exact .inl ⟨_, h⟩
+  · simp only [hl, if_false, List.append_nil, List.mem_append, List.mem_cons, List.not_mem_nil, or_false] at h
+    rcases h with (h | h | h | h) | h
+    · exact .inl ⟨_, h⟩
+    · exact .inl ⟨_, h⟩
+    · exact .inl ⟨_, h⟩
+    · exact .inl ⟨_, h⟩
+    · exact .inl ⟨_, h⟩
 
 /-- a page file is among the written files only as the page of that very object -/
 theorem pageFile_written {s : Sys} (w : WF s) {i : Nat} (hi : i < s.n) (h : pageFile s i ∈ written s) : i ∈ pages s := by
   rcases (mem_written_iff s _).mp h with h | ⟨p, hp, he⟩ | h
   · -- summary files: only `.index` could coincide, and only with several roots
-    unfold summaryFiles at h
-    simp only [List.mem_append, List.mem_cons, List.mem_singleton, List.not_mem_nil, or_false] at h
-    have hne := pageFile_ne_summary s i
-    rcases h with (h | h | h | h) | h | h
-    · exact absurd h (hne _)
-    · exact absurd h (hne _)
-    · exact absurd h (hne _)
-    · exact absurd h (hne _)
-    · split at h
-      · rename_i hl
-        simp only [List.mem_singleton] at h
-        unfold pageFile at h
-        split at h
-        · rename_i hr; rw [hr] at hl; simp at hl
-        · cases h
-      · simp at h
-    · exact absurd h (hne _)
+    rcases mem_summaryFiles_cases h with ⟨x, hx⟩ | ⟨hx, hl⟩
+    · exact absurd hx (pageFile_ne_summary s i x)
+    · unfold pageFile at hx
+      split at hx
+      · rename_i hr; rw [hr] at hl; simp at hl
+      · cases hx
   · have hpn : p < s.n := visible_lt (visible_of_mem_pages hp)
     have := pageFile_inj w hpn hi he
     exact this ▸ hp
@@ -307,11 +343,10 @@ theorem mem_methods {s : Sys} {p c : Nat} :
     c ∈ methods s p ↔ c ∈ (s.ob p).contents ∧ (s.ob c).kind.ownPage = false ∧ visible s c = true := by
   simp [methods, List.mem_filter]
 
-theorem resolvesHref_full (s : Sys) (pg : File) (u : Url) :
-    resolvesHref s pg ⟨some u.file, u.frag⟩ = true ↔
-      u.file ∈ written s ∧ (∀ a, u.frag = some a → a ∈ anchorsOf s u.file) := by
+theorem resolvesHref_full (s : Sys) (pg f : File) (fr : Option Name) :
+    resolvesHref s pg ⟨some f, fr⟩ = true ↔ f ∈ written s ∧ (∀ a, fr = some a → a ∈ anchorsOf s f) := by
   unfold resolvesHref
-  cases hf : u.frag <;> simp [List.contains_iff_mem]
+  cases fr <;> simp
 
 /-- **C11** every visible module, package and class reached through `contents` has its own page at the
 address links use for it -/
@@ -334,10 +369,7 @@ theorem member_anchor_exists {s : Sys} (w : WF s) {i : Nat} (hr : reachable s i)
   · have := Kind.ownPage_of_isModule (w.orphan_module i hi hnone)
     rw [ho] at this; cases this
   · have hvp := visible_parent hp hv
-    have hop : (s.ob p).kind.ownPage = true := by
-      rcases w.parent_page i p hi hp with h | h
-      · rw [ho] at h; cases h
-      · exact h
+    have hop : (s.ob p).kind.ownPage = true := w.parent_page i p hi hp
     have hpp : p ∈ pages s := (mem_pages_iff w p).mpr ⟨hrp, hvp, hop⟩
     unfold urlResolves
     rw [url_member w hi ho hp]
@@ -395,5 +427,816 @@ theorem url_resolves_iff {s : Sys} (w : WF s) {i : Nat} (hi : i < s.n) :
     cases ho : (s.ob i).kind.ownPage with
     | true => exact own_page_exists w hr hv ho
     | false => exact member_anchor_exists w hr hv ho
+
+/-! ### where every emitted mention comes from (one pass over the producer table) -/
+
+/-- the link's shortening context is the page it is written into (or there is none) -/
+def ctxSelf (e : Emit) : Prop := e.ctx = none ∨ e.ctx = some e.page
+
+/-- `o` is displayed on the written page `pf`: the page's object or one of its members -/
+def Shown (s : Sys) (pf : File) (o : Nat) : Prop :=
+  ∃ p, p ∈ pages s ∧ pf = pageFile s p ∧ (o = p ∨ o ∈ methods s p)
+
+/-- what the code path of each row establishes about an emitted mention -/
+def Origin (s : Sys) (e : Emit) : Prop :=
+  match e.row with
+  | .table | .initTable =>
+      e.ctx = some e.page ∧ e.marked = some (cssPrivate s e.target) ∧ visible s e.target = true ∧
+      ∃ p, p ∈ pages s ∧ e.page = pageFile s p ∧ e.target ∈ (s.ob p).contents
+  | .baseTable => e.ctx = some e.page ∧ e.marked = some (cssPrivate s e.target) ∧ visible s e.target = true
+  | .detail =>
+      e.marked = some (cssPrivate s e.target) ∧ visible s e.target = true ∧
+      ∃ p, p ∈ pages s ∧ e.page = pageFile s p ∧ e.target ∈ methods s p
+  | .sidebarTitle =>
+      e.ctx = some (pageFile s e.target) ∧
+      ∃ p, p ∈ pages s ∧ e.page = pageFile s p ∧
+        (e.target = p ∨ (s.ob p).parent = some e.target ∨ (s.ob p).modul = some e.target)
+  | .sidebarItem =>
+      e.ctx = some e.page ∧ e.marked = some (isPrivate s e.target) ∧ visible s e.target = true ∧
+      ∃ p, p ∈ pages s ∧ e.page = pageFile s p ∧
+        ∃ a, (a = p ∨ (s.ob p).parent = some a ∨ (s.ob p).modul = some a) ∧ Desc s a e.target
+  | .sidebarInherited => e.ctx = some e.page ∧ e.marked = some (isPrivate s e.target) ∧ visible s e.target = true
+  | .heading =>
+      e.ctx = some e.page ∧ (s.ob e.target).kind.ownPage = true ∧
+      ∃ p, p ∈ pages s ∧ e.page = pageFile s p ∧ e.target ∈ chain s p
+  | .classSig => e.ctx = some e.page ∧ ∃ p, p ∈ pages s ∧ some e.target ∈ (s.ob p).sigrefs
+  | .knownSub | .overriddenIn => e.ctx = some e.page ∧ visible s e.target = true
+  | .overrides =>
+      e.ctx = some e.page ∧ ∃ p, p ∈ pages s ∧ ∃ b nm, b ∈ (s.ob p).mro.drop 1 ∧ member s b nm = some e.target ∧
+        (nm = (s.ob p).name ∨ ∃ c, c ∈ methods s p ∧ nm = (s.ob c).name)
+  | .baseName => e.ctx = some e.page ∧ ∃ a, a ∈ (s.ob e.target).contents ∧ visible s a = true
+  | .baseVia => e.ctx = some e.page ∧ ∃ p, p ∈ pages s ∧ e.target ∈ (s.ob p).mro
+  | .docXref =>
+      ∃ o, Shown s e.page o ∧ e.target ∈ (s.ob o).xrefs ∧
+        (e.ctx = none ∨ ∃ sp, (s.ob o).docCtx = some sp ∧ e.ctx = some (pageFile s sp))
+  | .annXref =>
+      ∃ o op, Shown s e.page o ∧ e.target ∈ (s.ob o).annrefs ∧ pageObject s o = some op ∧ e.ctx = some (pageFile s op)
+  | .extraInfo => e.ctx = some e.page ∧ ∃ p, p ∈ pages s ∧ e.target ∈ (s.ob p).ctors
+  | .sumCopy | .classIndexSum | .allDocsSum =>
+      e.ctx = none ∧ ∃ o, visible s o = true ∧ e.target ∈ (s.ob o).xrefs
+  | .modIndexSum => e.ctx = none ∧ ∃ o, (visible s o = true ∨ o ∈ s.roots) ∧ e.target ∈ (s.ob o).xrefs
+  | .modIndexRoot => e.ctx = some e.page ∧ e.marked = some (isPrivate s e.target) ∧ e.target ∈ s.roots
+  | .modIndex =>
+      e.ctx = some e.page ∧ e.marked = some (isPrivate s e.target) ∧ visible s e.target = true ∧
+      ∃ r, r ∈ s.roots ∧ Desc s r e.target
+  | .classIndex | .nameIndex | .undoc => e.ctx = some e.page ∧ visible s e.target = true
+  | .allDocs => e.ctx = none ∧ e.marked = some ((s.ob e.target).privacy == .priv) ∧ visible s e.target = true
+  | .indexRoots => e.ctx = some e.page ∧ e.target ∈ s.roots
+
+theorem mem_sumLinks {s : Sys} {row : Row} {pg : File} {o : Nat} {e : Emit} (h : e ∈ sumLinks s row pg o) :
+    e.row = row ∧ e.page = pg ∧ e.ctx = none ∧ e.target ∈ (s.ob o).xrefs := by
+  unfold sumLinks at h
+  split at h
+  · simp at h
+  · obtain ⟨t, ht, rfl⟩ := List.mem_map.mp h
+    exact ⟨rfl, rfl, rfl, ht⟩
+
+theorem mem_docLinks {s : Sys} {pg : File} {o : Nat} {e : Emit} (h : e ∈ docLinks s pg o) :
+    e.row = .docXref ∧ e.page = pg ∧ e.target ∈ (s.ob o).xrefs ∧
+      (e.ctx = none ∨ ∃ sp, (s.ob o).docCtx = some sp ∧ e.ctx = some (pageFile s sp)) := by
+  unfold docLinks at h
+  split at h
+  · simp at h
+  · split at h
+    · obtain ⟨t, ht, rfl⟩ := List.mem_map.mp h
+      exact ⟨rfl, rfl, ht, .inl rfl⟩
+    · rename_i sp hsp
+      obtain ⟨t, ht, rfl⟩ := List.mem_map.mp h
+      exact ⟨rfl, rfl, ht, .inr ⟨sp, hsp, rfl⟩⟩
+
+theorem mem_annLinks {s : Sys} {pg : File} {o : Nat} {e : Emit} (h : e ∈ annLinks s pg o) :
+    e.row = .annXref ∧ e.page = pg ∧ e.target ∈ (s.ob o).annrefs ∧
+      ∃ op, pageObject s o = some op ∧ e.ctx = some (pageFile s op) := by
+  unfold annLinks at h
+  split at h
+  · simp at h
+  · rename_i op hop
+    obtain ⟨t, ht, rfl⟩ := List.mem_map.mp h
+    exact ⟨rfl, rfl, ht, op, hop, rfl⟩
+
+theorem mem_assemble {s : Sys} {l : List Nat} {i : Nat} (h : i ∈ assemble s l) : visible s i = true := by
+  unfold assemble at h
+  have := (List.mem_filter.mp h).2
+  simp only [Bool.and_eq_true] at this
+  exact this.2
+
+theorem mem_overrideInfo {s : Sys} {pf : File} {c : Nat} {nm : Name} {e : Emit} (h : e ∈ overrideInfo s pf c nm) :
+    e.page = pf ∧ e.ctx = some pf ∧
+      ((e.row = .overrides ∧ ∃ b, b ∈ (s.ob c).mro.drop 1 ∧ member s b nm = some e.target)
+       ∨ (e.row = .overriddenIn ∧ visible s e.target = true)) := by
+  unfold overrideInfo at h
+  rcases List.mem_append.mp h with h | h
+  · split at h
+    · simp at h
+    · rename_i b hb
+      split at h
+      · simp at h
+      · rename_i t ht
+        simp only [List.mem_singleton] at h
+        subst h
+        exact ⟨rfl, rfl, .inl ⟨rfl, b, List.mem_of_find?_eq_some hb, ht⟩⟩
+  · obtain ⟨t, ht, rfl⟩ := List.mem_map.mp h
+    exact ⟨rfl, rfl, .inr ⟨rfl, mem_assemble ht⟩⟩
+
+theorem mem_sideContent (s : Sys) (pf : File) : ∀ k ob e, e ∈ sideContent s pf k ob →
+    e.page = pf ∧ e.ctx = some pf ∧ e.marked = some (isPrivate s e.target) ∧ visible s e.target = true ∧
+      ((e.row = .sidebarItem ∧ Desc s ob e.target) ∨ e.row = .sidebarInherited) := by
+  intro k
+  induction k with
+  | zero =>
+    intro ob e h
+    rw [sideContent] at h
+    rcases List.mem_append.mp h with h | h
+    · obtain ⟨c, hc, rfl⟩ := List.mem_map.mp h
+      obtain ⟨hcc, hcv⟩ := List.mem_filter.mp hc
+      exact ⟨rfl, rfl, rfl, hcv, .inl ⟨rfl, .head hcc (.refl _)⟩⟩
+    · split at h
+      · obtain ⟨c, hc, rfl⟩ := List.mem_map.mp h
+        have := (List.mem_filter.mp hc).2
+        simp only [Bool.and_eq_true] at this
+        exact ⟨rfl, rfl, rfl, this.1, .inr rfl⟩
+      · simp at h
+  | succ k ih =>
+    intro ob e h
+    rw [sideContent] at h
+    rcases List.mem_append.mp h with h | h
+    · obtain ⟨c, hc, he⟩ := List.mem_flatMap.mp h
+      obtain ⟨hcc, hcv⟩ := List.mem_filter.mp hc
+      rcases List.mem_cons.mp he with rfl | he
+      · exact ⟨rfl, rfl, rfl, hcv, .inl ⟨rfl, .head hcc (.refl _)⟩⟩
+      · split at he
+        · obtain ⟨h1, h2, h3, h4, h5⟩ := ih c e he
+          refine ⟨h1, h2, h3, h4, ?_⟩
+          rcases h5 with ⟨hr, hd⟩ | hr
+          · exact .inl ⟨hr, .head hcc hd⟩
+          · exact .inr hr
+        · simp at he
+    · split at h
+      · obtain ⟨c, hc, rfl⟩ := List.mem_map.mp h
+        have := (List.mem_filter.mp hc).2
+        simp only [Bool.and_eq_true] at this
+        exact ⟨rfl, rfl, rfl, this.1, .inr rfl⟩
+      · simp at h
+
+theorem mem_moduleSummary (s : Sys) : ∀ f isRoot m e, (isRoot = false → visible s m = true) →
+    e ∈ moduleSummary s f isRoot m →
+    e.page = .summary .moduleIndex ∧
+    ((e.row = .modIndexRoot ∧ isRoot = true ∧ e.target = m ∧ e.ctx = some e.page ∧ e.marked = some (isPrivate s m))
+     ∨ (e.row = .modIndex ∧ e.ctx = some e.page ∧ e.marked = some (isPrivate s e.target) ∧ visible s e.target = true
+          ∧ Desc s m e.target)
+     ∨ (e.row = .modIndexSum ∧ e.ctx = none ∧ ∃ o, (visible s o = true ∨ (isRoot = true ∧ o = m)) ∧ e.target ∈ (s.ob o).xrefs)) := by
+  intro f
+  induction f with
+  | zero => intro isRoot m e _ h; simp [moduleSummary] at h
+  | succ f ih =>
+    intro isRoot m e hm h
+    rw [moduleSummary] at h
+    rcases List.mem_cons.mp h with rfl | h
+    · cases isRoot with
+      | true => exact ⟨rfl, .inl ⟨rfl, rfl, rfl, rfl, rfl⟩⟩
+      | false => exact ⟨rfl, .inr (.inl ⟨rfl, rfl, rfl, hm rfl, .refl _⟩)⟩
+    · rcases List.mem_append.mp h with h | h
+      · obtain ⟨h1, h2, h3, h4⟩ := mem_sumLinks h
+        refine ⟨h2, .inr (.inr ⟨h1, h3, m, ?_, h4⟩)⟩
+        cases isRoot with
+        | true => exact .inr ⟨rfl, rfl⟩
+        | false => exact .inl (hm rfl)
+      · split at h
+        · obtain ⟨c, hc, he⟩ := List.mem_flatMap.mp h
+          unfold submodules at hc
+          obtain ⟨hcc, hcv⟩ := List.mem_filter.mp hc
+          simp only [Bool.and_eq_true] at hcv
+          obtain ⟨h1, h2⟩ := ih false c e (fun _ => hcv.2) he
+          refine ⟨h1, ?_⟩
+          rcases h2 with ⟨_, hf, _⟩ | ⟨hr, hx, hk, hv, hd⟩ | ⟨hr, hx, o, ho, ht⟩
+          · cases hf
+          · exact .inr (.inl ⟨hr, hx, hk, hv, .head hcc hd⟩)
+          · refine .inr (.inr ⟨hr, hx, o, ?_, ht⟩)
+            rcases ho with ho | ⟨hf, _⟩
+            · exact .inl ho
+            · cases hf
+        · simp at h
+
+theorem mem_subclassesFrom (s : Sys) : ∀ f c x, x ∈ subclassesFrom s f c → x = c ∨ visible s x = true := by
+  intro f
+  induction f with
+  | zero => intro c x h; simp [subclassesFrom] at h
+  | succ f ih =>
+    intro c x h
+    rw [subclassesFrom] at h
+    rcases List.mem_cons.mp h with rfl | h
+    · exact .inl rfl
+    · obtain ⟨sc, hsc, hx⟩ := List.mem_flatMap.mp h
+      have := (List.mem_filter.mp hsc).2
+      simp only [Bool.and_eq_true] at this
+      rcases ih sc x hx with rfl | hv
+      · exact .inr this.2
+      · exact .inr hv
+
+theorem mem_rset {r : Roots} {k : List Char} {v : RootVal} {kv : List Char × RootVal} (h : kv ∈ rset r k v) :
+    kv ∈ r ∨ kv.2 = v := by
+  induction r with
+  | nil => simp [rset] at h; exact .inr (by rw [h])
+  | cons x r ih =>
+    obtain ⟨k', v'⟩ := x
+    simp only [rset] at h
+    split at h
+    · rcases List.mem_cons.mp h with h | h
+      · exact .inr (by rw [h])
+      · exact .inl (List.mem_cons_of_mem _ h)
+    · rcases List.mem_cons.mp h with h | h
+      · exact .inl (by rw [h]; exact List.mem_cons_self)
+      · rcases ih h with h | h
+        · exact .inl (List.mem_cons_of_mem _ h)
+        · exact .inr h
+
+theorem rget_mem {r : Roots} {k : List Char} {v : RootVal} (h : rget r k = some v) : ∃ k', (k', v) ∈ r := by
+  induction r with
+  | nil => simp [rget] at h
+  | cons x r ih =>
+    obtain ⟨k', v'⟩ := x
+    simp only [rget] at h
+    split at h
+    · injection h with h; subst h; exact ⟨k', List.mem_cons_self⟩
+    · obtain ⟨k'', hk⟩ := ih h
+      exact ⟨k'', List.mem_cons_of_mem _ hk⟩
+
+/-- every class kept in the `roots` dict is visible -/
+def RootsVisible (s : Sys) (r : Roots) : Prop := ∀ kv, kv ∈ r → ∀ c, c ∈ kv.2.classes → visible s c = true
+
+theorem addBase_visible {s : Sys} {r : Roots} {nm : List Char} {c : Nat} (hr : RootsVisible s r)
+    (hc : visible s c = true) : RootsVisible s (addBase r nm c) := by
+  intro kv hkv x hx
+  unfold addBase at hkv
+  split at hkv
+  · rename_i k hk
+    rcases mem_rset hkv with h | h
+    · exact hr kv h x hx
+    · rw [h] at hx
+      obtain ⟨k', hk'⟩ := rget_mem hk
+      simp only [RootVal.classes, List.mem_cons, List.not_mem_nil, or_false] at hx
+      rcases hx with rfl | rfl
+      · exact hr _ hk' _ (by simp [RootVal.classes])
+      · exact hc
+  · rename_i l hl
+    rcases mem_rset hkv with h | h
+    · exact hr kv h x hx
+    · rw [h] at hx
+      obtain ⟨k', hk'⟩ := rget_mem hl
+      simp only [RootVal.classes, List.mem_append, List.mem_singleton] at hx
+      rcases hx with hx | rfl
+      · exact hr _ hk' _ (by simpa [RootVal.classes] using hx)
+      · exact hc
+  · rcases mem_rset hkv with h | h
+    · exact hr kv h x hx
+    · rw [h] at hx
+      simp only [RootVal.classes, List.mem_singleton] at hx
+      exact hx ▸ hc
+
+theorem rootStep_visible {s : Sys} {r : Roots} {c : Nat} (hr : RootsVisible s r) : RootsVisible s (rootStep s r c) := by
+  unfold rootStep
+  split
+  · exact hr
+  · rename_i hc
+    simp only [Bool.or_eq_true, Bool.not_eq_true', not_or, Bool.not_eq_true, Bool.not_eq_false] at hc
+    have hv : visible s c = true := hc.2
+    split
+    · intro kv hkv x hx
+      rcases mem_rset hkv with h | h
+      · exact hr kv h x hx
+      · rw [h] at hx
+        simp only [RootVal.classes, List.mem_singleton] at hx
+        exact hx ▸ hv
+    · generalize ((s.ob c).baseNames.zip (s.ob c).bases) = l
+      induction l generalizing r with
+      | nil => exact hr
+      | cons nb l ih =>
+        simp only [List.foldl_cons]
+        apply ih
+        cases nb.2 with
+        | none => exact addBase_visible hr hv
+        | some b =>
+          simp only
+          split
+          · exact hr
+          · exact addBase_visible hr hv
+
+theorem findRootClasses_visible (s : Sys) : RootsVisible s (findRootClasses s) := by
+  unfold findRootClasses
+  generalize classes s = l
+  have : RootsVisible s [] := by intro kv h; simp at h
+  revert this
+  generalize ([] : Roots) = r
+  induction l generalizing r with
+  | nil => intro h; exact h
+  | cons c l ih => intro h; exact ih _ (rootStep_visible h)
+
+theorem mem_classIndexListed {s : Sys} {c : Nat} (h : c ∈ classIndexListed s) : visible s c = true := by
+  unfold classIndexListed at h
+  obtain ⟨kv, hkv, hc⟩ := List.mem_flatMap.mp h
+  obtain ⟨r, hr, hc⟩ := List.mem_flatMap.mp hc
+  rcases mem_subclassesFrom s _ _ _ hc with rfl | hv
+  · exact findRootClasses_visible s kv hkv _ hr
+  · exact hv
+
+theorem mem_visibleAll {s : Sys} {o : Nat} (h : o ∈ visibleAll s) : visible s o = true :=
+  (List.mem_filter.mp h).2
+
+theorem origin_of_sum {s : Sys} {row : Row} {pg : File} {o : Nat} {e : Emit}
+    (hrow : row = .sumCopy ∨ row = .classIndexSum ∨ row = .allDocsSum) (hv : visible s o = true)
+    (h : e ∈ sumLinks s row pg o) : Origin s e := by
+  obtain ⟨h1, _, h3, h4⟩ := mem_sumLinks h
+  rcases hrow with rfl | rfl | rfl <;> (simp only [Origin, h1]; exact ⟨h3, o, hv, h4⟩)
+
+theorem origin_override {s : Sys} {p : Nat} {nm : Name} {e : Emit} (hp : p ∈ pages s)
+    (hnm : nm = (s.ob p).name ∨ ∃ c, c ∈ methods s p ∧ nm = (s.ob c).name)
+    (h : e ∈ overrideInfo s (pageFile s p) p nm) : Origin s e := by
+  obtain ⟨h1, h2, h3⟩ := mem_overrideInfo h
+  rcases h3 with ⟨hr, b, hb, ht⟩ | ⟨hr, hv⟩
+  · simp only [Origin, hr]; exact ⟨by rw [h2, h1], p, hp, b, nm, hb, ht, hnm⟩
+  · simp only [Origin, hr]; exact ⟨by rw [h2, h1], hv⟩
+
+theorem origin_doc {s : Sys} {p o : Nat} {e : Emit} (hp : p ∈ pages s) (ho : o = p ∨ o ∈ methods s p)
+    (h : e ∈ docLinks s (pageFile s p) o) : Origin s e := by
+  obtain ⟨h1, h2, h3, h4⟩ := mem_docLinks h
+  simp only [Origin, h1]
+  exact ⟨o, ⟨p, hp, h2, ho⟩, h3, h4⟩
+
+theorem origin_ann {s : Sys} {p o : Nat} {e : Emit} (hp : p ∈ pages s) (ho : o = p ∨ o ∈ methods s p)
+    (h : e ∈ annLinks s (pageFile s p) o) : Origin s e := by
+  obtain ⟨h1, h2, h3, op, h4, h5⟩ := mem_annLinks h
+  simp only [Origin, h1]
+  exact ⟨o, op, ⟨p, hp, h2, ho⟩, h3, h4, h5⟩
+
+theorem mem_unmaskedAttrs {s : Sys} {bl : List Nat} {a : Nat} (h : a ∈ unmaskedAttrs s bl) :
+    visible s a = true ∧ ∃ b0 rest, bl = b0 :: rest ∧ a ∈ (s.ob b0).contents := by
+  cases bl with
+  | nil => simp [unmaskedAttrs] at h
+  | cons b0 rest =>
+    simp only [unmaskedAttrs] at h
+    obtain ⟨hc, hv⟩ := List.mem_filter.mp h
+    simp only [Bool.and_eq_true] at hv
+    exact ⟨hv.1, b0, rest, rfl, hc⟩
+
+theorem mem_classMembers {s : Sys} {c : Nat} {bl attrs : List Nat} (h : (bl, attrs) ∈ classMembers s c) :
+    attrs = unmaskedAttrs s bl ∧ attrs ≠ [] ∧ ∃ i, bl = ((s.ob c).mro.take (i+1)).reverse := by
+  unfold classMembers at h
+  obtain ⟨bl', hbl, hh⟩ := List.mem_filterMap.mp h
+  simp only at hh
+  split at hh
+  · cases hh
+  · rename_i hne
+    injection hh with hh
+    injection hh with h1 h2
+    subst h1 h2
+    unfold nestedBases at hbl
+    obtain ⟨i, _, hi⟩ := List.mem_map.mp hbl
+    exact ⟨rfl, by simpa using hne, i, hi.symm⟩
+
+theorem mem_baseLists {s : Sys} {c : Nat} {x : List Nat × List Nat} (h : x ∈ baseLists s c) : x ∈ classMembers s c := by
+  unfold baseLists at h
+  split at h
+  · simp at h
+  · rename_i bl a rest heq
+    rw [heq]
+    split at h
+    · exact List.mem_cons_of_mem _ h
+    · exact h
+
+theorem mem_take_reverse_dropLast {l : List Nat} {i : Nat} {b0 : Nat} {rest : List Nat} {x : Nat}
+    (h : (l.take (i+1)).reverse = b0 :: rest) (hx : x ∈ rest.dropLast.reverse) : x ∈ l := by
+  have h1 : x ∈ rest := List.dropLast_subset _ (List.mem_reverse.mp hx)
+  have h2 : x ∈ (l.take (i+1)).reverse := by rw [h]; exact List.mem_cons_of_mem _ h1
+  exact List.mem_of_mem_take (List.mem_reverse.mp h2)
+
+theorem origin_page {s : Sys} {p : Nat} {e : Emit} (hp : p ∈ pages s) (h : e ∈ pageEmits s p) : Origin s e := by
+  unfold pageEmits at h
+  simp only [List.mem_append] at h
+  rcases h with ((((((h | h) | h) | h) | h) | h) | h) | h
+  · -- heading
+    unfold headingLinks at h
+    obtain ⟨a, ha, rfl⟩ := List.mem_map.mp h
+    obtain ⟨hc, ho⟩ := List.mem_filter.mp ha
+    simp only [Origin, link]
+    exact ⟨trivial, ho, p, hp, rfl, hc⟩
+  · -- class extras
+    split at h
+    · simp only [List.mem_append] at h
+      rcases h with ((h | h) | h) | h
+      · obtain ⟨t, ht, he⟩ := List.mem_filterMap.mp h
+        cases t with
+        | none => simp at he
+        | some t =>
+          simp only [Option.map_some, Option.some.injEq] at he
+          subst he
+          simp only [Origin, link]
+          exact ⟨trivial, p, hp, ht⟩
+      · obtain ⟨t, ht, rfl⟩ := List.mem_map.mp h
+        simp only [Origin, link]
+        exact ⟨trivial, mem_assemble ht⟩
+      · exact origin_override hp (.inl rfl) h
+      · obtain ⟨t, ht, rfl⟩ := List.mem_map.mp h
+        simp only [Origin, link]
+        exact ⟨trivial, p, hp, ht⟩
+    · simp at h
+  · exact origin_doc hp (.inl rfl) h
+  · -- main table
+    obtain ⟨c, hc, he⟩ := List.mem_flatMap.mp h
+    have hcv : c ∈ (s.ob p).contents ∧ visible s c = true := by
+      unfold tableChildren at hc
+      split at hc
+      · unfold submodules at hc
+        obtain ⟨h1, h2⟩ := List.mem_filter.mp hc
+        simp only [Bool.and_eq_true] at h2
+        exact ⟨h1, h2.2⟩
+      · exact List.mem_filter.mp hc
+    rcases List.mem_cons.mp he with rfl | he
+    · simp only [Origin, entry]
+      exact ⟨trivial, trivial, hcv.2, p, hp, rfl, hcv.1⟩
+    · exact origin_of_sum (.inl rfl) hcv.2 he
+  · -- inherited-member tables
+    split at h
+    · obtain ⟨⟨bl, attrs⟩, hx, he⟩ := List.mem_flatMap.mp h
+      obtain ⟨hattrs, hne, i, hbl⟩ := mem_classMembers (mem_baseLists hx)
+      simp only [List.mem_append] at he
+      rcases he with he | he
+      · cases bl with
+        | nil => simp at he
+        | cons b0 rest =>
+          simp only at he
+          rcases List.mem_cons.mp he with rfl | he
+          · -- the source base has a visible member
+            simp only [Origin, link]
+            refine ⟨trivial, ?_⟩
+            cases hat : attrs with
+            | nil => exact absurd hat hne
+            | cons a as =>
+              have ha : a ∈ unmaskedAttrs s (b0 :: rest) := by rw [← hattrs, hat]; exact List.mem_cons_self
+              obtain ⟨hv, b0', rest', hb, hc⟩ := mem_unmaskedAttrs ha
+              injection hb with hb1 _
+              subst hb1
+              exact ⟨a, hc, hv⟩
+          · obtain ⟨x, hx', rfl⟩ := List.mem_map.mp he
+            simp only [Origin, link]
+            exact ⟨trivial, p, hp, mem_take_reverse_dropLast hbl.symm hx'⟩
+      · obtain ⟨c, hc, he⟩ := List.mem_flatMap.mp he
+        have hv : visible s c = true := (mem_unmaskedAttrs (hattrs ▸ hc)).1
+        rcases List.mem_cons.mp he with rfl | he
+        · simp only [Origin, entry]
+          exact ⟨trivial, trivial, hv⟩
+        · exact origin_of_sum (.inl rfl) hv he
+    · simp at h
+  · -- package __init__ table
+    obtain ⟨c, hc, he⟩ := List.mem_flatMap.mp h
+    have hcv : c ∈ (s.ob p).contents ∧ visible s c = true := by
+      unfold initChildren at hc
+      split at hc
+      · obtain ⟨h1, h2⟩ := List.mem_filter.mp hc
+        simp only [Bool.and_eq_true] at h2
+        exact ⟨h1, h2.2⟩
+      · simp at hc
+    rcases List.mem_cons.mp he with rfl | he
+    · simp only [Origin, entry]
+      exact ⟨trivial, trivial, hcv.2, p, hp, rfl, hcv.1⟩
+    · exact origin_of_sum (.inl rfl) hcv.2 he
+  · -- member details
+    obtain ⟨c, hc, he⟩ := List.mem_flatMap.mp h
+    have hcv := (mem_methods.mp hc).2.2
+    rcases List.mem_cons.mp he with rfl | he
+    · simp only [Origin, entry]
+      exact ⟨trivial, hcv, p, hp, rfl, hc⟩
+    · simp only [List.mem_append] at he
+      rcases he with (he | he) | he
+      · split at he
+        · exact origin_override hp (.inr ⟨c, hc, rfl⟩) he
+        · simp at he
+      · exact origin_doc hp (.inr hc) he
+      · exact origin_ann hp (.inr hc) he
+  · -- sidebar
+    unfold sidebarEmits at h
+    split at h
+    · simp at h
+    · obtain ⟨sec, hsec, he⟩ := List.mem_flatMap.mp h
+      have hsec' : sec = p ∨ (s.ob p).parent = some sec ∨ (s.ob p).modul = some sec := by
+        unfold sideSections at hsec
+        rcases List.mem_cons.mp hsec with rfl | hsec
+        · exact .inl rfl
+        · split at hsec
+          · split at hsec
+            · simp at hsec
+            · rename_i q hq
+              simp only [List.mem_singleton] at hsec
+              subst hsec
+              exact .inr (.inl hq)
+          · split at hsec
+            · simp at hsec
+            · rename_i m hm
+              simp only [List.mem_singleton] at hsec
+              subst hsec
+              exact .inr (.inr hm)
+      rcases List.mem_cons.mp he with rfl | he
+      · simp only [Origin, link]
+        exact ⟨trivial, p, hp, rfl, hsec'⟩
+      · obtain ⟨h1, h2, h3, h4, h5⟩ := mem_sideContent s _ _ _ _ he
+        rcases h5 with ⟨hr, hd⟩ | hr
+        · simp only [Origin, hr]
+          refine ⟨by rw [h2, h1], h3, h4, p, hp, h1, sec, ?_, hd⟩
+          exact hsec'
+        · simp only [Origin, hr]
+          exact ⟨by rw [h2, h1], h3, h4⟩
+
+theorem origin_summary {s : Sys} {e : Emit} (h : e ∈ summaryEmits s) : Origin s e := by
+  unfold summaryEmits at h
+  simp only [List.mem_append] at h
+  rcases h with ((((h | h) | h) | h) | h) | h
+  · -- module index
+    obtain ⟨r, hr, he⟩ := List.mem_flatMap.mp h
+    obtain ⟨h1, h2⟩ := mem_moduleSummary s _ true r e (by simp) he
+    rcases h2 with ⟨hrow, _, ht, hc, hm⟩ | ⟨hrow, hc, hm, hv, hd⟩ | ⟨hrow, hc, o, ho, ht⟩
+    · simp only [Origin, hrow]
+      exact ⟨hc, by rw [hm, ht], by rw [ht]; exact hr⟩
+    · simp only [Origin, hrow]
+      exact ⟨hc, hm, hv, r, hr, hd⟩
+    · simp only [Origin, hrow]
+      refine ⟨hc, o, ?_, ht⟩
+      rcases ho with ho | ⟨_, rfl⟩
+      · exact .inl ho
+      · exact .inr hr
+  · -- class index
+    unfold classIndexEmits at h
+    obtain ⟨c, hc, he⟩ := List.mem_flatMap.mp h
+    have hv := mem_classIndexListed hc
+    rcases List.mem_cons.mp he with rfl | he
+    · simp only [Origin, entry]; exact ⟨trivial, hv⟩
+    · exact origin_of_sum (.inr (.inl rfl)) hv he
+  · obtain ⟨o, ho, rfl⟩ := List.mem_map.mp h
+    simp only [Origin, entry]; exact ⟨trivial, mem_visibleAll ho⟩
+  · obtain ⟨o, ho, rfl⟩ := List.mem_map.mp h
+    simp only [Origin, link]; exact ⟨trivial, mem_visibleAll (List.mem_filter.mp ho).1⟩
+  · split at h
+    · obtain ⟨o, ho, rfl⟩ := List.mem_map.mp h
+      simp only [Origin, link]; exact ⟨trivial, ho⟩
+    · simp at h
+  · obtain ⟨o, ho, he⟩ := List.mem_flatMap.mp h
+    have hv := mem_visibleAll ho
+    rcases List.mem_cons.mp he with rfl | he
+    · simp only [Origin, entry]; exact ⟨trivial, trivial, hv⟩
+    · exact origin_of_sum (.inr (.inr rfl)) hv he
+
+/-- every emitted mention is produced by its row's code path -/
+theorem origin {s : Sys} {e : Emit} (h : e ∈ emits s) : Origin s e := by
+  unfold emits at h
+  rcases List.mem_append.mp h with h | h
+  · obtain ⟨p, hp, he⟩ := List.mem_flatMap.mp h
+    exact origin_page hp he
+  · exact origin_summary h
+
+/-! ### C11: links resolve -/
+
+theorem Desc.trans {s : Sys} {a b c : Nat} (h1 : Desc s a b) (h2 : Desc s b c) : Desc s a c := by
+  induction h1 with
+  | refl i => exact h2
+  | head hm _ ih => exact .head hm (ih h2)
+
+theorem reachable_desc {s : Sys} {a t : Nat} (h : reachable s a) (hd : Desc s a t) : reachable s t := by
+  obtain ⟨r, hr, hra⟩ := h
+  exact ⟨r, hr, hra.trans hd⟩
+
+theorem chain_facts {s : Sys} (w : WF s) : ∀ f p a, a ∈ chainAux s f p → visible s p = true → reachable s p →
+    visible s a = true ∧ reachable s a := by
+  intro f
+  induction f with
+  | zero => intro p a h; simp [chainAux] at h
+  | succ f ih =>
+    intro p a h hv hr
+    rw [chainAux] at h
+    rcases List.mem_cons.mp h with rfl | h
+    · exact ⟨hv, hr⟩
+    · split at h
+      · simp at h
+      · rename_i q hq
+        exact ih q a h (visible_parent hq hv) (reachable_parent w hr hq)
+
+/-- under `WF`, `parentMod` is one of the object's containers (or the object), and a module -/
+theorem module_in_chain {s : Sys} (w : WF s) {p m : Nat} (hp : p < s.n) (h : (s.ob p).modul = some m) :
+    m ∈ chain s p ∧ (s.ob m).kind.isModule = true := by
+  rw [w.modules p hp] at h
+  unfold moduleByChain at h
+  exact ⟨List.mem_of_find?_eq_some h, by simpa using List.find?_some h⟩
+
+/-- same-page shortening does not change where a link leads, as long as the link is written into the
+page the shortening was computed for (`fragment_consistent`: `#name` against `<a name=name>`) -/
+theorem shorten_resolves (s : Sys) (pg : File) (u : Url) (ctx : Option File)
+    (h : ctx = none ∨ ctx = some pg ∨ u.frag = none) :
+    resolvesHref s pg (shorten u ctx) = resolvesHref s pg ⟨some u.file, u.frag⟩ := by
+  unfold shorten
+  cases ctx with
+  | none => rfl
+  | some c =>
+    cases hf : u.frag with
+    | none => rfl
+    | some fr =>
+      rcases h with h | h | h
+      · cases h
+      · injection h with h
+        subst h
+        simp only
+        split
+        · rename_i he
+          simp [resolvesHref, he]
+        · rfl
+      · rw [hf] at h; cases h
+
+/-- the link's shortening context fits the page it is written into -/
+def ctxOk (s : Sys) (e : Emit) : Prop :=
+  e.ctx = none ∨ e.ctx = some e.page ∨ (s.ob e.target).kind.ownPage = true
+
+/-- **C11, all producer rows, under explicit hypotheses.**
+The full statement `∀ e ∈ emits s, resolves s e` is FALSE of the current code (see the three
+counterexamples below and known_findings.json):
+-- theorem links_resolve_all (w : WF s) : ∀ e ∈ emits s, resolves s e = true
+What holds for every row: a link resolves when its target is visible, reached through `contents`
+(not a superseded duplicate, nor inside one) and the link is written into the page its shortening
+context names. -/
+theorem links_resolve_partial {s : Sys} (w : WF s) (e : Emit) (hv : visible s e.target = true)
+    (hr : reachable s e.target) (hc : ctxOk s e) : resolves s e = true := by
+  have hi := visible_lt hv
+  have hu := (url_resolves_iff w hi).mpr ⟨hv, hr⟩
+  unfold resolves href
+  unfold urlResolves at hu
+  cases hurl : url s e.target with
+  | none => rw [hurl] at hu; cases hu
+  | some u =>
+    rw [hurl] at hu
+    simp only [Option.map_some, Bool.or_eq_true, Bool.not_eq_true']
+    right
+    rw [shorten_resolves]
+    · rw [resolvesHref_full] at hu ⊢; exact hu
+    · rcases hc with h | h | h
+      · exact .inl h
+      · exact .inr (.inl h)
+      · rw [url_own h] at hurl
+        injection hurl with hurl
+        subst hurl
+        exact .inr (.inr rfl)
+
+/-- **C11, the rows whose guard implies "visible and reached through `contents`"** (member tables,
+package `__init__` tables, member details, sidebar titles and direct items, heading, module index
+below the roots): every emitted link resolves. -/
+theorem links_resolve {s : Sys} (w : WF s) {e : Emit} (h : e ∈ emits s) (hg : e.row.guardReached = true) :
+    resolves s e = true := by
+  have ho := origin h
+  have pagesF : ∀ p, p ∈ pages s → visible s p = true ∧ reachable s p ∧ (s.ob p).kind.ownPage = true := by
+    intro p hp
+    have := (mem_pages_iff w p).mp hp
+    exact ⟨this.2.1, this.1, this.2.2⟩
+  cases hrow : e.row <;> rw [hrow] at hg <;> (first | exact absurd hg (by decide) | skip) <;>
+    simp only [Origin, hrow] at ho
+  case table =>
+    obtain ⟨hc, _, hv, p, hp, _, hm⟩ := ho
+    exact links_resolve_partial w e hv (reachable_child (pagesF p hp).2.1 hm) (.inr (.inl hc))
+  case initTable =>
+    obtain ⟨hc, _, hv, p, hp, _, hm⟩ := ho
+    exact links_resolve_partial w e hv (reachable_child (pagesF p hp).2.1 hm) (.inr (.inl hc))
+  case detail =>
+    -- an anchor, not a hyperlink
+    simp [resolves, hrow, Row.isLink]
+  case sidebarTitle =>
+    obtain ⟨_, p, hp, _, ht⟩ := ho
+    obtain ⟨hvp, hrp, hop⟩ := pagesF p hp
+    rcases ht with ht | ht | ht
+    · exact links_resolve_partial w e (ht ▸ hvp) (ht ▸ hrp) (.inr (.inr (ht ▸ hop)))
+    · exact links_resolve_partial w e (visible_parent ht hvp) (reachable_parent w hrp ht)
+        (.inr (.inr (w.parent_page p _ (visible_lt hvp) ht)))
+    · obtain ⟨ht, hm⟩ := module_in_chain w (visible_lt hvp) ht
+      obtain ⟨hv, hr⟩ := chain_facts w _ _ _ ht hvp hrp
+      exact links_resolve_partial w e hv hr (.inr (.inr (Kind.ownPage_of_isModule hm)))
+  case sidebarItem =>
+    obtain ⟨hc, _, hv, p, hp, _, a, ha, hd⟩ := ho
+    obtain ⟨hvp, hrp, _⟩ := pagesF p hp
+    have hra : reachable s a := by
+      rcases ha with rfl | ha | ha
+      · exact hrp
+      · exact reachable_parent w hrp ha
+      · exact (chain_facts w _ _ _ (module_in_chain w (visible_lt hvp) ha).1 hvp hrp).2
+    exact links_resolve_partial w e hv (reachable_desc hra hd) (.inr (.inl hc))
+  case heading =>
+    obtain ⟨hc, _, p, hp, _, ht⟩ := ho
+    obtain ⟨hvp, hrp, _⟩ := pagesF p hp
+    obtain ⟨hv, hr⟩ := chain_facts w _ _ _ ht hvp hrp
+    exact links_resolve_partial w e hv hr (.inr (.inl hc))
+  case modIndex =>
+    obtain ⟨hc, _, hv, r, hr, hd⟩ := ho
+    exact links_resolve_partial w e hv ⟨r, hr, hd⟩ (.inr (.inl hc))
+
+/-- a superseded duplicate (`'x 0'`: registered, but not in its parent's `contents`) is not reached -/
+theorem superseded_not_reachable {s : Sys} (w : WF s) {i : Nat} (h : superseded s i = true) : ¬ reachable s i := by
+  intro hr
+  unfold superseded at h
+  rcases reachable_cases w hr with ⟨hroot, hp⟩ | ⟨p, hp, _, hc⟩
+  · simp [hp, hroot] at h
+  · simp [hp, hc] at h
+
+/-- an ancestor (through `contents`) of a reached object is reached -/
+theorem reachable_of_desc {s : Sys} (w : WF s) {a i : Nat} (hd : Desc s a i) (hr : reachable s i) : reachable s a := by
+  induction hd with
+  | refl i => exact hr
+  | @head a c i hm _ ih => exact reachable_parent w (ih hr) (w.contents_parent a c hm)
+
+/-- nor is anything inside one -/
+theorem inside_superseded_not_reachable {s : Sys} (w : WF s) {a i : Nat} (h : superseded s a = true)
+    (hd : Desc s a i) : ¬ reachable s i :=
+  fun hr => superseded_not_reachable w h (reachable_of_desc w hd hr)
+
+/-! ### counterexamples: the three ways the full statement fails on the current code -/
+
+/-- an object of module 0 (the examples below have one module, object 0) -/
+def mkObj (name : Name) (kind : Kind) (parent : Option Nat) (privacy : Level) (contents : List Nat) : Obj :=
+  { (default : Obj) with name := name, kind := kind, parent := parent, privacy := privacy, contents := contents,
+                         modul := some 0 }
+
+/-- `m.py`: `class C: pass` twice. Object 1 is the superseded first definition `'C 0'`: registered in
+`allobjects`, visible, not in `m.contents`. -/
+def sSuperseded : Sys :=
+  { objs := [ mkObj ['m'] .module none .pub [2],
+              mkObj ['C', ' ', '0'] .cls (some 0) .pub [],
+              mkObj ['C'] .cls (some 0) .pub [] ],
+    all := [0, 1, 2], roots := [0], depth := 1, nosidebar := false }
+
+/-- DESIGN §8-4: nameIndex.html, undoccedSummary.html and all-documents.html (hence the search
+results) link `m.C%200.html`, which is never written. -/
+theorem links_resolve_counterexample_superseded :
+    wf sSuperseded = true ∧ visible sSuperseded 1 = true ∧ superseded sSuperseded 1 = true ∧
+    url sSuperseded 1 = some ⟨.page ['m', '.', 'C', ' ', '0'], none⟩ ∧
+    ([Row.nameIndex, Row.undoc, Row.allDocs].all fun r =>
+      (emits sSuperseded).any fun e => e.row == r && e.target == 1 && !resolves sSuperseded e) = true := by
+  decide
+
+/-- `class _H` is HIDDEN, `class V(_H)` is visible: the class signature of `V` links `m._H.html`. -/
+def sHidden : Sys :=
+  { objs := [ mkObj ['m'] .module none .pub [1, 2],
+              mkObj ['_', 'H'] .cls (some 0) .hidden [],
+              { mkObj ['V'] .cls (some 0) .pub [] with
+                  bases := [some 1], baseNames := [['m', '.', '_', 'H']], mro := [2, 1], sigrefs := [some 1] } ],
+    all := [0, 1, 2], roots := [0], depth := 1, nosidebar := false }
+
+/-- DESIGN §8-11: an unguarded row (`format_class_signature` → `taglink`) links a hidden object. -/
+theorem links_resolve_counterexample_hidden :
+    wf sHidden = true ∧ visible sHidden 1 = false ∧
+    ((emits sHidden).any fun e => e.row == .classSig && e.target == 1 && !resolves sHidden e) = true := by
+  decide
+
+/-- `class B: def meth…; def other: '''see L{meth}'''`, `class S(B): def other(self): pass`.
+`S.other` (5) shows the docstring of `B.other` (3); its link to `B.meth` (2) is shortened relative
+to `m.B.html` but written into `m.S.html`, which has no anchor `meth`. -/
+def sContext : Sys :=
+  { objs := [ mkObj ['m'] .module none .pub [1, 4],
+              { mkObj ['B'] .cls (some 0) .pub [2, 3] with mro := [1] },
+              mkObj ['m', 'e', 't', 'h'] .function (some 1) .pub [],
+              { mkObj ['o'] .function (some 1) .pub [] with docSource := some 3, docCtx := some 1, xrefs := [2], hasDoc := true },
+              { mkObj ['S'] .cls (some 0) .pub [5] with
+                  bases := [some 1], baseNames := [['m', '.', 'B']], mro := [4, 1], sigrefs := [some 1] },
+              { mkObj ['o'] .function (some 4) .pub [] with docSource := some 3, docCtx := some 1, xrefs := [2], hasDoc := true } ],
+    all := [0, 1, 2, 3, 4, 5], roots := [0], depth := 1, nosidebar := false }
+
+/-- a dead link to a target that is visible and reached: the inherited docstring's context. -/
+theorem links_resolve_counterexample_context :
+    wf sContext = true ∧ visible sContext 2 = true ∧ urlResolves sContext 2 = true ∧
+    ((emits sContext).any fun e =>
+        e.row == .docXref && e.target == 2 && e.page == .page ['m', '.', 'S'] && e.ctx == some (.page ['m', '.', 'B'])
+          && !resolves sContext e) = true := by
+  decide
+
+/-- "View In Hierarchy" (`classIndex.html#<fullName>`) of a class whose base is a superseded
+duplicate: `findRootClasses` skips the base (`' ' in cls.name`), so the class is never listed. -/
+def sHierarchy : Sys :=
+  { objs := [ mkObj ['m'] .module none .pub [2, 3],
+              mkObj ['C', ' ', '0'] .cls (some 0) .pub [],
+              mkObj ['C'] .cls (some 0) .pub [],
+              { mkObj ['D'] .cls (some 0) .pub [] with
+                  bases := [some 1], baseNames := [['m', '.', 'C', ' ', '0']], mro := [3, 1], sigrefs := [some 1] } ],
+    all := [0, 1, 2, 3], roots := [0], depth := 1, nosidebar := false }
+
+theorem inhierarchy_counterexample :
+    wf sHierarchy = true ∧
+    ((inHierarchy sHierarchy).any fun (pg, a) => pg == .page ['m', '.', 'D'] &&
+        !(anchorsOf sHierarchy (.summary .classIndex)).contains a) = true := by
+  decide
+
+/-! ### non-vacuity: the hypotheses of the theorems above are met by systems with output -/
+
+/-- `m.py`: `class K: def f(self): …`, everything visible -/
+def sPlain : Sys :=
+  { objs := [ mkObj ['m'] .module none .pub [1],
+              { mkObj ['K'] .cls (some 0) .priv [2] with mro := [1] },
+              mkObj ['f'] .function (some 1) .pub [] ],
+    all := [0, 1, 2], roots := [0], depth := 2, nosidebar := false }
+
+example : wf sPlain = true ∧ (emits sPlain).length = 25 ∧
+    ((emits sPlain).filter fun e => e.row.guardReached).length = 14 ∧
+    (emits sPlain).all (resolves sPlain) = true := by decide
+example : urlResolves sPlain 1 = true ∧ urlResolves sPlain 2 = true ∧
+    url sPlain 2 = some ⟨.page ['m', '.', 'K'], some ['f']⟩ ∧ url sPlain 0 = some ⟨.index, none⟩ := by decide
+example : urlResolves sSuperseded 1 = false ∧ urlResolves sSuperseded 2 = true := by decide
 
 end Output
